@@ -7,7 +7,7 @@ from harness import tlc, tracecheck, sk, handover_drv as hd
 from harness.sendpath_drv import Unmappable
 from harness.common import machinery_failure
 
-P_INV = ["I_C09_RejectedNotStored", "I_C09_RejectedNotServed", "I_C09_AcceptedStored", "I_C12_FoundStored", "I_C12_FoundBroadcast"]
+P_INV = ["I_C09_RejectedNotStored", "I_C09_RejectedNotServed", "I_C09_AcceptedStored", "I_C09_RejectionLeavesStateAsItWas", "I_C12_FoundStored", "I_C12_FoundBroadcast"]
 COMBOS = [("accepted relay block", True, True, 0), ("rejected relay block", False, True, 0), ("bulk-download block, not validated", True, False, 77)]
 
 
@@ -20,13 +20,19 @@ def stage(chk, quick, rng, pid, cfg, keys, build_universe):
     stops = None
     # ---- design level: the repaired order holds the P invariants in every interleaving; each repair is necessary
     for (name, xv, xd, irt) in COMBOS:
-        c = {"XValid": xv, "XValidated": xd, "MinerOn": True, "EmitHist": False, "SaveAfterValidation": True, "SelectiveClear": True, "AtomicRollback": True}
+        c = {"XValid": xv, "XValidated": xd, "MinerOn": True, "EmitHist": False, "SaveAfterValidation": True, "SelectiveClear": True, "AtomicRollback": True, "MinerHandOverValidated": True}
         r = tracecheck.model("MC_Handover", "MSpec", c, workers=2, timeout=600, view="View", invariants=P_INV, properties=["A_C12_AdoptedAtHandOver"])
         tlc.require_clean(r, "MC_Handover")
         chk.add_tlc("MC_Handover (%s x found block, every interleaving of the source lines)" % name, r, constants=str(c))
         if r.violated:
             return machinery_failure(pid, "Handover (repaired order) violates %s" % r.violated)
-    base = {"XValid": False, "XValidated": True, "MinerOn": True, "EmitHist": False}
+    base = {"XValid": False, "XValidated": True, "MinerOn": True, "EmitHist": False, "MinerHandOverValidated": True}
+    rv = tracecheck.model("MC_Handover", "MSpec", dict(base, SaveAfterValidation=True, SelectiveClear=True, AtomicRollback=True, MinerHandOverValidated=False), workers=2, timeout=600,
+                          view="View", invariants=["I_C09_RejectionLeavesStateAsItWas"])
+    chk.add_tlc("Handover necessity run: the miner's hand-over does not count as validated (a later rejection rolls the found block out of the state)", rv,
+                expect_violation="I_C09_RejectionLeavesStateAsItWas")
+    if not rv.violated:
+        return machinery_failure(pid, "vacuity: Handover with MinerHandOverValidated=FALSE keeps the state on a rejection")
     for (sav, sel, atom, inv, fid) in ((False, True, True, "I_C09_RejectedNotStored", "F-C09c"), (True, False, True, "I_C12_FoundStored", "F-C12d"),
                                        (True, True, False, "I_C12_FoundStored", "F-C12d (stale rollback)")):
         rw = tracecheck.model("MC_Handover", "MSpec", dict(base, SaveAfterValidation=sav, SelectiveClear=sel, AtomicRollback=atom), workers=2, timeout=600, view="View", invariants=[inv])
@@ -42,7 +48,7 @@ def stage(chk, quick, rng, pid, cfg, keys, build_universe):
     n = 45 if quick else 700
     nfeas = ntot = 0
     for (name, xv, xd, irt) in COMBOS:
-        c = {"XValid": xv, "XValidated": xd, "MinerOn": True, "EmitHist": True, "SaveAfterValidation": sw["SaveAfterValidation"], "SelectiveClear": sw["SelectiveClear"], "AtomicRollback": sw["AtomicRollback"]}
+        c = {"XValid": xv, "XValidated": xd, "MinerOn": True, "EmitHist": True, "SaveAfterValidation": sw["SaveAfterValidation"], "SelectiveClear": sw["SelectiveClear"], "AtomicRollback": sw["AtomicRollback"], "MinerHandOverValidated": True}
         rg = tracecheck.model("MC_Handover", "MSpec", c, workers=1, timeout=900, invariants=["I_Emit"])
         tlc.require_clean(rg, "MC_Handover gen")
         hs = tlc.tagged(rg, "HIST")
@@ -74,7 +80,7 @@ def stage(chk, quick, rng, pid, cfg, keys, build_universe):
             info[tid] = {"delivery": name, "schedule": [[s["t"], s["a"]] for s in h], "feasible_as_dictated": feas, "why_not": why, "observed": obs}
             chk.case(("handover", name, json.dumps(info[tid]["schedule"])), nontrivial=True)
         chk.sample({"two_thread_schedule_of_the_node": info[tid]})
-        tc = {"XValid": xv, "XValidated": xd, "MinerOn": True, "SaveAfterValidation": sw["SaveAfterValidation"], "SelectiveClear": sw["SelectiveClear"], "AtomicRollback": sw["AtomicRollback"]}
+        tc = {"XValid": xv, "XValidated": xd, "MinerOn": True, "SaveAfterValidation": sw["SaveAfterValidation"], "SelectiveClear": sw["SelectiveClear"], "AtomicRollback": sw["AtomicRollback"], "MinerHandOverValidated": True}
         verdicts, r2 = tracecheck.run("TraceHandover", traces, tc, ids=[t["id"] for t in traces], workers=2, timeout=1200)
         chk.states += r2.distinct
         chk.traces_validated += len(traces)
@@ -88,6 +94,26 @@ def stage(chk, quick, rng, pid, cfg, keys, build_universe):
             chk.model_drift("two-thread schedule %s step %s: %s" % tuple(d[:3]))
     chk.extra["handover_schedules"] = {"replayed": ntot, "followed_as_dictated": nfeas}
     return 0
+
+
+def stage_found_before(chk, pid, cfg, keys, build_universe, make_x, what, tid=800900, clause=None):
+    """A mining round that is over before the delivery of a block that fails full validation starts: the state the node held before the
+    attempt (which includes the block its own miner found, its head) is left exactly as it was."""
+    w, g, blocks, txs = build_universe(cfg, keys)
+    x = make_x(w, blocks)
+    run = hd.HandoverRun(w, g, [blocks[1]], x, 0, tid)
+    try:
+        run.found_then_delivery()
+        obs = run.finish()
+        before, after = run.before_delivery, run.after_delivery
+    finally:
+        run.close()
+    chk.case(("adversarial", what, "found_before"), nontrivial=True)
+    if run.found and not obs["x_served"] and before != after:
+        chk.violation(clause or "%s:chain_state_held_before_a_block_that_fails_full_validation_(%s)_is_not_left_as_it_was" % (pid, what),
+                      {"blocks_before": len(before[0]), "blocks_after": len(after[0]), "head_changed": before[1] != after[1],
+                       "the_block_the_miner_had_found_is_still_served": obs["b_served"], "errors": run.errors})
+    return {"k": -1, "reached": 0, "found_now": True, "obs": obs, "errors": run.errors}
 
 
 def stage_adversarial(chk, quick, rng, pid, cfg, keys, build_universe, make_x, what):
@@ -109,6 +135,7 @@ def stage_adversarial(chk, quick, rng, pid, cfg, keys, build_universe, make_x, w
             chk.case(("adversarial", what, k, found_now), nontrivial=True)
             if steps < k:
                 break
+    traces.append(stage_found_before(chk, pid, cfg, keys, build_universe, make_x, what, 800000 + len(traces)))
     bad = [t for t in traces if t["obs"]["x_served"] or t["obs"]["x_on_disk"]]
     chk.extra.setdefault("mining_round_at_every_stop_of_a_rejected_delivery", {})[what] = {"runs": len(traces), "with_the_rejected_block_in_state_or_store": len(bad)}
     for t in bad[:5]:
